@@ -1,6 +1,7 @@
 package checks
 
 import (
+	"buf.build/go/protovalidate"
 	"bufio"
 	"bytes"
 	"encoding/json"
@@ -12,6 +13,7 @@ import (
 	"strconv"
 	"strings"
 	"sync"
+	"verif/mc/univ"
 
 	"google.golang.org/protobuf/reflect/protoreflect"
 	"google.golang.org/protobuf/types/dynamicpb"
@@ -149,6 +151,13 @@ func C06(c *Ctx, r *report.Run) error {
 	var specs []*spec.Spec
 	for _, s := range serviceSpecs(c) {
 		if !hasTag(s, "ctx") && !hasTag(s, "rules") && !hasTag(s, "route") && !hasTag(s, "serveronly") {
+			specs = append(specs, s)
+		}
+	}
+	// collection rules (items.*, min/max_items, pairs): the rule-satisfying witnesses must validate against the published schema
+	rs, _ := univ.RuleSpecs(c.Thorough)
+	for _, s := range rs {
+		if s.Name == "rules_collections" || s.Name == "rules_string" || s.Name == "rules_double" {
 			specs = append(specs, s)
 		}
 	}
@@ -320,6 +329,9 @@ func C06(c *Ctx, r *report.Run) error {
 									d.Alts[1].Set(msg)
 								}
 							}
+						}
+						if len(protovalidate.Check(msg)) > 0 {
+							continue // the published rules rightly exclude this value (C19 compares rules and schemas)
 						}
 						v, err := model.Encode(msg, model.EncOpts{})
 						if err != nil {
